@@ -10,7 +10,8 @@ EXTENDS Naturals, Sequences, FiniteSets, Json, IOUtils, TLC
 Trace == ndJsonDeserialize(IOEnv.TRACE_FILE)
 VARIABLE i
 SetOf(s) == {s[k] : k \in 1..Len(s)}
-Abs(nr, nw, r, w) == INSTANCE RWLockAbs WITH Readers <- 1..nr, Writers <- (nr + 1)..(nr + nw), rd <- r, wr <- w
+\* (constants of an instance cannot depend on the event: the sets of readers and writers are passed as arguments)
+Abs == INSTANCE RWLockAbs WITH Readers <- {}, Writers <- {}, rd <- {}, wr <- {}
 
 Verdict(ev) ==
     LET r1 == SetOf(ev.rd1)  w1 == SetOf(ev.wr1)  r2 == SetOf(ev.rd2)  w2 == SetOf(ev.wr2) IN
@@ -18,8 +19,8 @@ Verdict(ev) ==
     ELSE IF ev.op = "exception" THEN "exception"
     ELSE IF ev.op = "overlap" THEN (IF ev.nr >= 2 /\ ev.n < 2 THEN "readers-never-share" ELSE "ok")
     ELSE IF ev.op \notin {"acquire_r", "release_r", "acquire_w", "release_w"} THEN "bad-event"
-    ELSE IF ~Abs(ev.nr, ev.nw, r2, w2)!Mutex THEN "mutex"
-    ELSE IF ~Abs(ev.nr, ev.nw, r1, w1)!StepOK(ev.op, ev.t, r1, w1, r2, w2) THEN "mutex"
+    ELSE IF ~Abs!MutexOf(r2, w2) THEN "mutex"
+    ELSE IF ~Abs!StepOKIn(1..ev.nr, (ev.nr + 1)..(ev.nr + ev.nw), ev.op, ev.t, r1, w1, r2, w2) THEN "mutex"
     ELSE "ok"
 
 Init == i = 1
